@@ -79,6 +79,7 @@ def run(module, fname, params, call_src, profile=False, twin=False):
                 settrace(None)
     out['functions'] = sorted(seen)
     out['waived'] = [list(w[:2]) + [w[2]] for w in rt.WAIVED]
+    out['untraced'] = rt.UNTRACED_CALLS[0] > 0
     return out
 
 
